@@ -214,7 +214,7 @@ PROPS["C12"] = dict(
     level="exploration",
     level_text=("Generated source views (C01 generator over mutable roots of int, a struct {int a; short b; short c;} and std::complex<double>) and a generated projection: element_transformed "
                 "with a value-returning function (checked again after mutating the source: laziness; composed with rotated(); converted to an array), with a reference-returning function (write "
-                "through, nothing else changes), with a pointer to member; static_array_cast<T const>; as_const; member_cast of two members (value and address of every element, after mutation, "
+                "through, nothing else changes), with a pointer to member; static_array_cast<T const> and const_array_cast<T> back (identity of every element, write-through); as_const; member_cast of two members (value and address of every element, after mutation, "
                 "composed with rotated()); same-size reinterpret_array_cast; reinterpret_array_cast<U>(n) with the trailing dimension over each element's own bytes (const&, & and && "
                 "overloads); blas::real / blas::imag (value and aliasing); array{view} and array<long>{view}. Every index tuple is compared with f(source element at the model position), and the same elements are reached through the view's other access paths (leading-dimension iterators forwards and backwards, front/back, it -= n, end() - n, every row, elements() in both directions)."),
     technique="model-based testing of projection views over generated source views: f(source element at the index-mapping model position) as oracle (rapidcheck + libFuzzer)",
@@ -317,7 +317,7 @@ PROPS["C15"] = dict(
     level_text=("Differential testing against a direct (separable, O(N n_d)) evaluation of the unnormalised DFT: D in 1..4, extents from {1..6, 8, 16, 25, 30, 36, 48} (at most 1500 elements), all 2^D masks of transformed dimensions, both signs, input and "
                 "output independently realised as contiguous view, transposed storage, rotated storage, padded sub-block, strided view, view with a non-unit stride in the last dimension, reversed dimension order or a padded block of transposed storage; out-of-place through dft / dft_forward / dft_backward and "
                 "the in-place overload. The result matches within 1e-10 N max|x|; a distinct input's whole parent storage is bit-identical afterwards; every parent cell outside the output view is "
-                "unchanged; transforming back multiplies every element by the number of transformed points; every case then runs the other placement (in place <-> out of place) of the same geometry right away, which must be equally correct."),
+                "unchanged; transforming back multiplies every element by the number of transformed points; every case then runs the other placement (in place <-> out of place) of the same geometry right away, which must be equally correct; half of the out-of-place cases also build a fftw::plan object and execute it twice, on the planned arrays and on a second pair of arrays of the same layouts."),
     technique="differential testing against a direct DFT on generated layouts and dimension masks, whole-parent guard comparison (rapidcheck + libFuzzer)",
     rule=("case = D x extents x mask x sign x input layout x output layout (or in-place) x front end x data seed; non-trivial = >= 2 elements, >= 2 transformed points and (a proper subset of the "
           "dimensions is transformed or a layout is not contiguous); distinct = hash of decoded case text"),
